@@ -192,7 +192,8 @@ func RunCheck(prop, tier string) int {
 				var errStr string
 				if p == nil {
 					var err error
-					if p, err = spawn(bin, prop, tier, append(env, "TMPDIR="+workerTmp(dir, w))); err != nil {
+					wenv := append(append([]string{}, env...), "TMPDIR="+workerTmp(dir, w))
+					if p, err = spawn(bin, prop, tier, wenv); err != nil {
 						errStr = "spawn: " + err.Error()
 					}
 				}
